@@ -251,6 +251,11 @@ func vLogReset(l *log.Log, lastIndex uint64) error {
 	a := vAbs(l)
 	a.nReset++
 	vCrashPoint("log.reset.before")
+	// the real Reset unlinks every segment, then creates the new one: in between the directory holds no segment at
+	// all, which openSegments turns into an empty log at index 0 (crash-outcome set of DESIGN.md §3.6, checked at the
+	// log level by C14)
+	a.base, a.prev, a.ents, a.bounds, a.flushed = 0, 0, nil, nil, 0
+	vCrashPoint("log.reset.mid")
 	a.base, a.prev, a.ents, a.bounds = lastIndex, lastIndex, nil, nil
 	a.flushed = lastIndex
 	vCrashPoint("log.reset.after")
